@@ -70,7 +70,16 @@ fn static_part(ctx: &Ctx, per_shard: usize) -> Acc {
         for k in 0..per_shard {
             let mut rng = Rng::derive(ctx.seed, 3_500 + shard as u64, k as u64);
             let prof = if rng.chance(0.7) { Profile::wild_static() } else { Profile::conforming() };
-            let c = make_case(&mut rng, &prof, None, Some(&Style::plain()));
+            let mut c = make_case(&mut rng, &prof, None, Some(&Style::plain()));
+            if k % 5 == 4 {
+                // hand-written families: exit ecalls with an inherited number, shared tails
+                let s = if rng.chance(0.7) { crate::shapes::exit_ecall_family(&mut rng) } else { crate::shapes::shared_tail_family(&mut rng) };
+                acc.note("shapes", s.name);
+                c.g.prog = s.prog;
+                c.g.base = c.g.prog.clone();
+                c.g.funcs.clear();
+                c.printed = crate::print::print(&c.g.prog, &Style::plain(), &mut Rng::new(1));
+            }
             acc.evaluations += 1;
             let Ok(a) = analyze(&c.printed.text) else {
                 acc.count("analysis_panicked", 1);
